@@ -151,7 +151,7 @@ theorem clearDead_ext (U : Universe) (s : St) : LogExt isLife s (clearDead U s).
 theorem deliverPlain_ext (U : Universe) (s : St) (ev args : String) :
     LogExt isProbe s (deliverPlain U s ev args).1 := by
   unfold deliverPlain
-  generalize Proto.sortNats s.registered = l
+  generalize s.registered = l
   suffices H : ∀ (acc : St × Outcome), LogExt isProbe s acc.1 →
       LogExt isProbe s (l.foldl (fun (acc : St × Outcome) o =>
         match acc.2 with
@@ -214,7 +214,7 @@ theorem callCb_ok {U : Universe} (hn : NoRaise U) (s : St) (o : Obj) (m : String
 theorem deliverPlain_ok {U : Universe} (hn : NoRaise U) (s : St) (ev args : String) :
     (deliverPlain U s ev args).2 = .ok := by
   unfold deliverPlain
-  generalize Proto.sortNats s.registered = l
+  generalize s.registered = l
   suffices H : ∀ (acc : St × Outcome), acc.2 = .ok →
       (l.foldl (fun (acc : St × Outcome) o =>
         match acc.2 with
